@@ -112,6 +112,42 @@ pub fn run(op: &str, rd: &mut Rd) -> Option<R> {
             };
             Ok(format!("{} | {}", e_els(img), e_els(src.into_iter().map(|el| a * el))))
         })(),
+        "svg.parse" => (|| -> R {
+            let t = rd.tok()?;
+            let bytes = unhex_bytes(&t[1..]).ok_or(BadArgs)?;
+            let text = match String::from_utf8(bytes) { Ok(s) => s, Err(_) => return Ok("NOT-UTF8".to_string()) };
+            Ok(e_svg_res(BezPath::from_svg(&text)))
+        })(),
+        "svg.write" => (|| -> R {
+            // to_svg text (hex) | parse(to_svg) result
+            let p = rd.els()?;
+            let bp = BezPath::from_vec(p);
+            let text = bp.to_svg();
+            Ok(format!("x{} | {}", hex_bytes(text.as_bytes()), e_svg_res(BezPath::from_svg(&text))))
+        })(),
+        "svg.arc" => (|| -> R {
+            let from = rd.pt()?; let to = rd.pt()?; let radii = rd.vec()?; let rot = rd.num()?; let la = rd.nat()?; let sw = rd.nat()?;
+            let sa = SvgArc { from, to, radii, x_rotation: rot, large_arc: la == 1, sweep: sw == 1 };
+            Ok(match Arc::from_svg_arc(&sa) { None => "none".to_string(), Some(a) => format!("{} {} {} {} {}", e_pt(a.center), e_vec(a.radii), e(a.start_angle), e(a.sweep_angle), e(a.x_rotation)) })
+        })(),
         _ => return None,
     })
+}
+
+pub fn unhex_bytes(s: &str) -> Option<Vec<u8>> {
+    if s.len() % 2 != 0 { return None; }
+    (0..s.len()).step_by(2).map(|i| u8::from_str_radix(&s[i..i + 2], 16).ok()).collect()
+}
+pub fn hex_bytes(b: &[u8]) -> String {
+    b.iter().map(|x| format!("{:02x}", x)).collect()
+}
+pub fn e_svg_res(r: Result<BezPath, SvgParseError>) -> String {
+    match r {
+        Ok(p) => format!("ok {}", e_els(p.elements().iter().copied())),
+        Err(SvgParseError::Wrong) => "err Wrong".to_string(),
+        Err(SvgParseError::UnexpectedEof) => "err UnexpectedEof".to_string(),
+        Err(SvgParseError::UnknownCommand(c)) => format!("err UnknownCommand({})", c as u32),
+        Err(SvgParseError::UninitializedPath) => "err UninitializedPath".to_string(),
+        Err(_) => "err ?".to_string(),
+    }
 }
